@@ -2,12 +2,12 @@
 (* trzsz/filter.go as a set of processes around two byte pumps (property C05: the wrapper *)
 (* is transparent whenever no transfer / zmodem session / drag upload is in progress).     *)
 (*                                                                                          *)
-(*   OutPump   wrapOutput: one loop turn = OutRead (serverOut.Read returns a chunk),        *)
-(*             OutToTransfer | OutScan (the `filter.transfer.Load()` decision),             *)
-(*             OutForward (trace logger, zmodem session, OSC52, detector, interrupting,     *)
-(*             skipUploadCommand, detectZmodem, writeAll - in the code's order), OutLoop    *)
-(*   InPump    wrapInput/sendInput: InRead, InSend (promptPipe, transfer, zmodem, drag,     *)
-(*             writeAll - in the code's order), InLoop                                      *)
+(*   OutPump   wrapOutput, one loop turn = OutRead (serverOut.Read returns a chunk) then    *)
+(*             OutToTransfer (`filter.transfer.Load() != nil`) or OutForward (trace logger, *)
+(*             zmodem session, OSC52, detector, interrupting, skipUploadCommand,            *)
+(*             detectZmodem, writeAll - in the code's order)                                *)
+(*   InPump    wrapInput/sendInput: InRead, then InSend (promptPipe, transfer, zmodem,      *)
+(*             drag, writeAll - in the code's order)                                        *)
 (*   Handler   the goroutine started by `go filter.handleTrzsz()`: HRefuse (chooser         *)
 (*             cancelled -> sendAction(false)), HChooseFail, HCAS (CompareAndSwap(nil,t)),  *)
 (*             HEnd(how), HExit (the deferred CompareAndSwap(t,nil)); StopAPI               *)
@@ -17,21 +17,23 @@
 (*   Main      trzsz.go: ChildExits(code), WrapperReturns                                   *)
 (*                                                                                          *)
 (* The pumps decide on FLAGS (transferPtr, zs, interrupting, skipCmd, logging, prompt);     *)
-(* the property is stated on SESSIONS (hpc, zs, drag).  Every finished turn leaves an entry *)
-(* [chunk, image, idle, expected]: `idle` is the property's antecedent evaluated on the     *)
-(* session state at the moment of the decision, `expected` the image the property demands.  *)
+(* the property is stated on SESSIONS (hpc, zs, drag).  OutImage / InImage is what a pump   *)
+(* makes of its chunk in the current state, ExpOut what the property demands; outOK / inOK  *)
+(* record whether every finished turn that fell into a session-free moment delivered the    *)
+(* demanded image (they stay TRUE unless the property is violated).                         *)
 EXTENDS Integers, Sequences, FiniteSets, TLC
 
-CONSTANTS MaxOut, MaxIn,       \* chunks fed per direction
-          MaxXfer, MaxZ, MaxDrag, \* triggers / zmodem headers / drops fed
-          FeedOut, FeedIn,     \* chunk kinds the environment feeds
-          OptSets,             \* option sets explored
-          ExitCodes,           \* exit codes of the wrapped command
-          EchoAssumed          \* the server's tty echoes the drag upload command (environment assumption)
+CONSTANTS MaxOut, MaxIn,          \* probe chunks fed per direction
+          MaxXfer, MaxZ, MaxDrag, \* triggers / genuine zmodem headers / drops fed
+          FeedOut, FeedIn,        \* chunk kinds the environment feeds
+          OptSets,                \* option sets explored
+          ExitCodes,              \* exit codes of the wrapped command
+          EchoAssumed             \* the server's tty echoes the drag upload command (environment assumption)
 
 NULL == "null"
 NoExit == -1      \* "has not exited" (exit codes are integers)
 AllOpts == [drag : BOOLEAN, zmodem : BOOLEAN, osc52 : BOOLEAN, tlog : BOOLEAN]
+Osc52On == {o \in AllOpts : o.osc52}
 
 (* Output kinds.  Inert kinds are bytes "short of a genuine trigger": random binary, escape  *)
 (* sequences, near-miss triggers, zmodem-like fragments, OSC52 pieces, near-miss trace-log   *)
@@ -52,24 +54,21 @@ VARIABLES opts,
           logging,
           pcOut, curOut, pcIn, curIn,
           nOut, nIn, nTrig, nZ, nDrag,
-          lastOut, lastIn, history,
+          outOK, inOK,
           childExit, wrapExit, lastWords
 
-(* `history` holds the outcome of the handler that exited last ("none" before the first): the   *)
-(* sequences of outcomes are the paths of the state graph, not part of the state.              *)
 hvars == <<transferPtr, hpc, stopReq, prompt>>
 dvars == <<drag, dragging, interrupting, skipCmd>>
-svars == <<logging>>
-ovars == <<pcOut, curOut, nOut, lastOut>>
-ivars == <<pcIn, curIn, nIn, lastIn>>
-cvars == <<nTrig, nZ, nDrag>>
+ovars == <<pcOut, curOut, outOK>>
+ivars == <<pcIn, curIn, inOK>>
+cvars == <<nOut, nIn, nTrig, nZ, nDrag>>
 mvars == <<childExit, wrapExit, lastWords>>
-vars == <<opts, hvars, zs, dvars, svars, ovars, ivars, cvars, history, mvars>>
+vars == <<opts, hvars, zs, dvars, logging, ovars, ivars, cvars, mvars>>
 
 Img(pre, body, post) == [pre |-> pre, body |-> body, post |-> post]
 NoImg == Img(FALSE, "none", FALSE)
+Same == Img(FALSE, "same", FALSE)
 NoChunk == [k |-> "none", id |-> 0]
-NoEntry == [id |-> 0, img |-> NoImg, ok |-> TRUE]
 
 -----------------------------------------------------------------------------
 (* Sessions: the property's antecedent.                                                      *)
@@ -90,6 +89,31 @@ ExpOut(k) == Img(zs = "cleaned",
                  IF k = "trig" \/ Switches(k) THEN "other" ELSE "same",
                  k = "zmhdr" /\ opts.zmodem)
 
+(* What the property demands towards the server: unmodified; with drag detection an input   *)
+(* that is entirely a list of existing paths may be taken instead.                          *)
+InAllowed(k, img) == img = Same \/ (k = "pathex" /\ opts.drag /\ img = NoImg)
+
+-----------------------------------------------------------------------------
+(* What the pumps make of the current chunk, decided on the flags.                           *)
+ZSwallows == opts.zmodem /\ (zs = "stopped" \/ (zs = "active" /\ curOut.k # "zmcancel"))
+ZDrops    == opts.zmodem /\ (zs = "cleaned" \/ (zs = "active" /\ curOut.k = "zmcancel"))
+ZAfter    == IF ZDrops THEN "none" ELSE zs
+StartsZ   == opts.zmodem /\ curOut.k = "zmhdr" /\ ZAfter = "none"
+
+OutImage ==
+    IF transferPtr # NULL \/ ZSwallows THEN NoImg              \* handed to the transfer / to the session
+    ELSE IF curOut.k = "trig" THEN Img(ZDrops, "other", FALSE)   \* shown locally (rewritten)
+    ELSE IF interrupting THEN Img(ZDrops, "none", FALSE)
+    ELSE IF skipCmd /\ curOut.k = "cmdlike" THEN Img(ZDrops, "crlf", FALSE)
+    ELSE Img(ZDrops, IF Switches(curOut.k) THEN "other" ELSE "same", StartsZ)
+
+InImage ==
+    IF prompt # "none" \/ transferPtr # NULL THEN NoImg
+    ELSE IF opts.zmodem /\ zs \in {"active", "stopped"}
+         THEN (IF curIn.k = "ctrlc" /\ zs = "active" THEN Img(FALSE, "other", FALSE) ELSE NoImg)
+    ELSE IF opts.drag /\ curIn.k = "pathex" THEN NoImg
+    ELSE Same
+
 -----------------------------------------------------------------------------
 Init ==
     /\ opts \in OptSets
@@ -99,7 +123,7 @@ Init ==
     /\ logging = FALSE
     /\ pcOut = "read" /\ curOut = NoChunk /\ pcIn = "read" /\ curIn = NoChunk
     /\ nOut = 0 /\ nIn = 0 /\ nTrig = 0 /\ nZ = 0 /\ nDrag = 0
-    /\ lastOut = NoEntry /\ lastIn = NoEntry /\ history = "none"
+    /\ outOK = TRUE /\ inOK = TRUE
     /\ childExit = NoExit /\ wrapExit = NoExit /\ lastWords = TRUE
 
 (* a fresh filter with option set o (used by the trace spec to start the next recorded run) *)
@@ -111,7 +135,7 @@ Reset(o) ==
     /\ logging' = FALSE
     /\ pcOut' = "read" /\ curOut' = NoChunk /\ pcIn' = "read" /\ curIn' = NoChunk
     /\ nOut' = 0 /\ nIn' = 0 /\ nTrig' = 0 /\ nZ' = 0 /\ nDrag' = 0
-    /\ lastOut' = NoEntry /\ lastIn' = NoEntry /\ history' = "none"
+    /\ outOK' = TRUE /\ inOK' = TRUE
     /\ childExit' = NoExit /\ wrapExit' = NoExit /\ lastWords' = TRUE
 
 -----------------------------------------------------------------------------
@@ -119,70 +143,39 @@ Reset(o) ==
 
 OutRead(c) ==
     /\ pcOut = "read"
-    /\ pcOut' = "dispatch" /\ curOut' = c
+    /\ pcOut' = "scan" /\ curOut' = c
     /\ nTrig' = IF c.k = "trig" THEN nTrig + 1 ELSE nTrig
     /\ nOut' = IF c.k = "trig" \/ (c.k = "zmhdr" /\ opts.zmodem) THEN nOut ELSE nOut + 1
-    /\ UNCHANGED <<opts, hvars, zs, dvars, svars, lastOut, ivars, nZ, nDrag, history, mvars>>
+    /\ UNCHANGED <<opts, hvars, zs, dvars, logging, outOK, ivars, nIn, nZ, nDrag, mvars>>
 
-(* the entry of a finished turn: ok = (no session active => the image is the one demanded) *)
-OutEntry(img, exp) == [id |-> curOut.id, img |-> img, ok |-> (OutSessionIdle => img = exp)]
+OutTurnEnds ==   \* the verdict on this turn, then the pump calls Read again
+    /\ pcOut' = "read" /\ curOut' = NoChunk
+    /\ outOK' = (outOK /\ (OutSessionIdle => OutImage = ExpOut(curOut.k)))
 
 (* `if transfer := filter.transfer.Load(); transfer != nil { transfer.addReceivedData(buf) }` *)
 OutToTransfer ==
-    /\ pcOut = "dispatch" /\ transferPtr # NULL
-    /\ lastOut' = OutEntry(NoImg, ExpOut(curOut.k))
-    /\ pcOut' = "done"
-    /\ UNCHANGED <<opts, hvars, zs, dvars, svars, curOut, nOut, ivars, cvars, history, mvars>>
-
-OutScan ==
-    /\ pcOut = "dispatch" /\ transferPtr = NULL
-    /\ pcOut' = "forward"
-    /\ UNCHANGED <<opts, hvars, zs, dvars, svars, curOut, nOut, lastOut, ivars, cvars, history, mvars>>
+    /\ pcOut = "scan" /\ transferPtr # NULL
+    /\ OutTurnEnds
+    /\ UNCHANGED <<opts, hvars, zs, dvars, logging, ivars, cvars, mvars>>
 
 (* The rest of the loop turn, in the code's order.                                           *)
 OutForward ==
-    /\ pcOut = "forward"
-    /\ pcOut' = "done"
-    /\ LET k   == curOut.k
-           exp == ExpOut(k)
-           sw  == Switches(k)
-           (* zmodem session branch: swallowed by the session, or the session is dropped *)
-           swallowedByZ == opts.zmodem /\ (zs = "stopped" \/ (zs = "active" /\ k # "zmcancel"))
-           droppedZ     == opts.zmodem /\ (zs = "cleaned" \/ (zs = "active" /\ k = "zmcancel"))
-           pre          == droppedZ
-           zs1          == IF droppedZ THEN "none" ELSE zs
-       IN
-       /\ logging' = IF sw THEN ~logging ELSE logging
-       /\ IF swallowedByZ
-          THEN /\ lastOut' = OutEntry(NoImg, exp)
-               /\ UNCHANGED <<zs, hpc, skipCmd, nZ>>
-          ELSE (* detectOSC52 only looks (clipboard); it never changes what is forwarded *)
-               /\ IF k = "trig"
-                  THEN (* detector fires: shown locally, `go filter.handleTrzsz()` *)
-                       /\ lastOut' = OutEntry(Img(pre, "other", FALSE), exp)
-                       /\ hpc' = "spawned" /\ zs' = zs1
-                       /\ UNCHANGED <<skipCmd, nZ>>
-                  ELSE IF interrupting
-                  THEN /\ lastOut' = OutEntry(Img(pre, "none", FALSE), exp)
-                       /\ zs' = zs1 /\ UNCHANGED <<hpc, skipCmd, nZ>>
-                  ELSE IF skipCmd /\ k = "cmdlike"
-                  THEN /\ skipCmd' = FALSE
-                       /\ lastOut' = OutEntry(Img(pre, "crlf", FALSE), exp)
-                       /\ zs' = zs1 /\ UNCHANGED <<hpc, nZ>>
-                  ELSE /\ skipCmd' = FALSE
-                       /\ UNCHANGED hpc
-                       /\ IF opts.zmodem /\ k = "zmhdr" /\ zs1 = "none"
-                          THEN /\ zs' = "active" /\ nZ' = nZ + 1
-                               /\ lastOut' = OutEntry(Img(pre, IF sw THEN "other" ELSE "same", TRUE), exp)
-                          ELSE /\ zs' = zs1 /\ nZ' = nZ
-                               /\ lastOut' = OutEntry(Img(pre, IF sw THEN "other" ELSE "same", FALSE), exp)
-    /\ UNCHANGED <<opts, transferPtr, stopReq, prompt, drag, dragging, interrupting,
-                   curOut, nOut, ivars, nTrig, nDrag, history, mvars>>
-
-OutLoop ==       \* the pump calls Read again: the turn is over
-    /\ pcOut = "done" /\ pcOut' = "read"
-    /\ lastOut' = NoEntry /\ curOut' = NoChunk
-    /\ UNCHANGED <<opts, hvars, zs, dvars, svars, nOut, ivars, cvars, history, mvars>>
+    /\ pcOut = "scan" /\ transferPtr = NULL
+    /\ OutTurnEnds
+    /\ logging' = (IF Switches(curOut.k) THEN ~logging ELSE logging)     \* writeTraceLog
+    /\ IF ZSwallows
+       THEN UNCHANGED <<zs, hpc, skipCmd, nZ>>                          \* zmodem.handleServerOutput took it
+       ELSE IF curOut.k = "trig"
+       THEN /\ hpc' = "spawned" /\ zs' = ZAfter                         \* detector fires: `go filter.handleTrzsz()`
+            /\ UNCHANGED <<skipCmd, nZ>>
+       ELSE IF interrupting
+       THEN zs' = ZAfter /\ UNCHANGED <<hpc, skipCmd, nZ>>               \* dropped
+       ELSE /\ skipCmd' = FALSE /\ UNCHANGED hpc                         \* skipUploadCommand is one-shot
+            /\ IF StartsZ /\ ~(skipCmd /\ curOut.k = "cmdlike")
+               THEN zs' = "active" /\ nZ' = nZ + 1                      \* detectZmodem: session begins
+               ELSE zs' = ZAfter /\ nZ' = nZ
+    /\ UNCHANGED <<opts, transferPtr, stopReq, prompt, drag, dragging, interrupting, ivars,
+                   nOut, nIn, nTrig, nDrag, mvars>>
 
 -----------------------------------------------------------------------------
 (* InPump = wrapInput / sendInput                                                            *)
@@ -191,142 +184,126 @@ InRead(c) ==
     /\ pcIn = "read"
     /\ pcIn' = "send" /\ curIn' = c
     /\ nIn' = IF c.k = "pathex" /\ opts.drag THEN nIn ELSE nIn + 1
-    /\ UNCHANGED <<opts, hvars, zs, dvars, svars, ovars, lastIn, cvars, history, mvars>>
-
-(* towards the server: unmodified; with drag detection a list of existing paths may be taken *)
-InEntry(img) == [id |-> curIn.id, img |-> img,
-                 ok |-> (InSessionIdle => \/ img = Img(FALSE, "same", FALSE)
-                                          \/ curIn.k = "pathex" /\ opts.drag /\ img = NoImg)]
+    /\ UNCHANGED <<opts, hvars, zs, dvars, logging, ovars, inOK, nOut, nTrig, nZ, nDrag, mvars>>
 
 InSend ==
     /\ pcIn = "send"
-    /\ pcIn' = "done"
+    /\ pcIn' = "read" /\ curIn' = NoChunk
+    /\ inOK' = (inOK /\ (InSessionIdle => InAllowed(curIn.k, InImage)))
     /\ LET k == curIn.k IN
        IF prompt # "none"
        THEN (* transformPromptInput: keys go to the stop prompt *)
-            /\ lastIn' = InEntry(NoImg)
             /\ IF prompt = "open" /\ k = "ctrlc" THEN prompt' = "stop"
                ELSE IF prompt = "open" /\ k = "plain" THEN prompt' \in {"open", "stop", "cont"}
                ELSE prompt' = prompt
             /\ UNCHANGED <<zs, drag, dragging, nDrag>>
        ELSE IF transferPtr # NULL
        THEN (* only Ctrl-C means something during a transfer: confirmStopTransfer *)
-            /\ lastIn' = InEntry(NoImg)
-            /\ prompt' = IF k = "ctrlc" THEN "open" ELSE prompt
+            /\ prompt' = (IF k = "ctrlc" THEN "open" ELSE prompt)
             /\ UNCHANGED <<zs, drag, dragging, nDrag>>
        ELSE IF opts.zmodem /\ zs \in {"active", "stopped"}
-       THEN (* zmodem.isTransferringFiles(): swallowed; Ctrl-C stops the session (cancel sequence sent) *)
-            /\ lastIn' = InEntry(IF k = "ctrlc" /\ zs = "active" THEN Img(FALSE, "other", FALSE) ELSE NoImg)
-            /\ zs' = IF k = "ctrlc" THEN "stopped" ELSE zs
+       THEN (* zmodem.isTransferringFiles(): swallowed; Ctrl-C stops the session *)
+            /\ zs' = (IF k = "ctrlc" THEN "stopped" ELSE zs)
             /\ UNCHANGED <<prompt, drag, dragging, nDrag>>
        ELSE IF opts.drag /\ k = "pathex"
        THEN (* detectDragFiles: entirely a list of existing paths -> addDragFiles, not sent *)
-            /\ lastIn' = InEntry(NoImg)
             /\ dragging' = TRUE /\ nDrag' = nDrag + 1
-            /\ drag' = IF drag = "idle" THEN "pending" ELSE drag
+            /\ drag' = (IF drag = "idle" THEN "pending" ELSE drag)
             /\ UNCHANGED <<prompt, zs>>
-       ELSE /\ lastIn' = InEntry(Img(FALSE, "same", FALSE))
-            /\ dragging' = IF opts.drag THEN FALSE ELSE dragging    \* resetDragFiles
+       ELSE /\ dragging' = (IF opts.drag THEN FALSE ELSE dragging)    \* resetDragFiles
             /\ UNCHANGED <<prompt, zs, drag, nDrag>>
-    /\ UNCHANGED <<opts, transferPtr, hpc, stopReq, interrupting, skipCmd, svars, ovars,
-                   curIn, nIn, nTrig, nZ, history, mvars>>
-
-InLoop ==
-    /\ pcIn = "done" /\ pcIn' = "read"
-    /\ lastIn' = NoEntry /\ curIn' = NoChunk
-    /\ UNCHANGED <<opts, hvars, zs, dvars, svars, ovars, nIn, cvars, history, mvars>>
+    /\ UNCHANGED <<opts, transferPtr, hpc, stopReq, interrupting, skipCmd, logging, ovars,
+                   nOut, nIn, nTrig, nZ, mvars>>
 
 -----------------------------------------------------------------------------
 (* Handler = handleTrzsz and its worker goroutine                                            *)
 
 HRefuse ==       \* chooser cancelled: sendAction(false); the pointer is never set
-    /\ hpc = "spawned"
-    /\ hpc' = "ending" /\ history' = "refused"
-    /\ UNCHANGED <<opts, transferPtr, stopReq, prompt, zs, dvars, svars, ovars, ivars, cvars, mvars>>
+    /\ hpc = "spawned" /\ hpc' = "ending"
+    /\ UNCHANGED <<opts, transferPtr, stopReq, prompt, zs, dvars, logging, ovars, ivars, cvars, mvars>>
 
 HChooseFail ==   \* chooser / path check fails before the pointer is set
-    /\ hpc = "spawned"
-    /\ hpc' = "ending" /\ history' = "fail"
-    /\ UNCHANGED <<opts, transferPtr, stopReq, prompt, zs, dvars, svars, ovars, ivars, cvars, mvars>>
+    /\ hpc = "spawned" /\ hpc' = "ending"
+    /\ UNCHANGED <<opts, transferPtr, stopReq, prompt, zs, dvars, logging, ovars, ivars, cvars, mvars>>
 
 HCAS ==          \* filter.transfer.CompareAndSwap(nil, transfer); dragged files are taken over
     /\ hpc = "spawned" /\ transferPtr = NULL
     /\ transferPtr' = "t" /\ hpc' = "active"
     /\ dragging' \in (IF dragging THEN {TRUE, FALSE} ELSE {FALSE})
-    /\ UNCHANGED <<opts, stopReq, prompt, zs, drag, interrupting, skipCmd, svars, ovars, ivars, cvars, history, mvars>>
+    /\ UNCHANGED <<opts, stopReq, prompt, zs, drag, interrupting, skipCmd, logging, ovars, ivars, cvars, mvars>>
 
 HEnd(how) ==     \* uploadFiles / downloadFiles return (clientExit, clientError)
     /\ hpc = "active" /\ how \in {"success", "fail", "cancel"}
     /\ how = "cancel" => stopReq
-    /\ hpc' = "ending" /\ history' = how
-    /\ UNCHANGED <<opts, transferPtr, stopReq, prompt, zs, dvars, svars, ovars, ivars, cvars, mvars>>
+    /\ hpc' = "ending"
+    /\ UNCHANGED <<opts, transferPtr, stopReq, prompt, zs, dvars, logging, ovars, ivars, cvars, mvars>>
 
 HExit ==         \* `defer filter.transfer.CompareAndSwap(transfer, nil)`; nothing of the session may outlive it
     /\ hpc = "ending"
     /\ transferPtr' = NULL /\ hpc' = "none" /\ stopReq' = FALSE /\ prompt' = "none"
-    /\ UNCHANGED <<opts, zs, dvars, svars, ovars, ivars, cvars, history, mvars>>
+    /\ UNCHANGED <<opts, zs, dvars, logging, ovars, ivars, cvars, mvars>>
 
 StopAPI ==       \* filter.StopTransferringFiles
     /\ transferPtr # NULL /\ ~stopReq
     /\ stopReq' = TRUE
-    /\ UNCHANGED <<opts, transferPtr, hpc, prompt, zs, dvars, svars, ovars, ivars, cvars, history, mvars>>
+    /\ UNCHANGED <<opts, transferPtr, hpc, prompt, zs, dvars, logging, ovars, ivars, cvars, mvars>>
 
 PromptEnd ==     \* prompt.Run() returned: stop / resume, promptPipe.Store(nil)
     /\ prompt \in {"stop", "cont"}
     /\ prompt' = "none"
-    /\ stopReq' = IF prompt = "stop" /\ transferPtr # NULL THEN TRUE ELSE stopReq
-    /\ UNCHANGED <<opts, transferPtr, hpc, zs, dvars, svars, ovars, ivars, cvars, history, mvars>>
+    /\ stopReq' = (IF prompt = "stop" /\ transferPtr # NULL THEN TRUE ELSE stopReq)
+    /\ UNCHANGED <<opts, transferPtr, hpc, zs, dvars, logging, ovars, ivars, cvars, mvars>>
 
 -----------------------------------------------------------------------------
 (* ZSession                                                                                  *)
 ZStop ==         \* helper cannot be launched / exits / error: stopped := true
     /\ zs = "active" /\ zs' = "stopped"
-    /\ UNCHANGED <<opts, hvars, dvars, svars, ovars, ivars, cvars, history, mvars>>
+    /\ UNCHANGED <<opts, hvars, dvars, logging, ovars, ivars, cvars, mvars>>
 
 ZCleanup ==      \* cleanup timer: cleaned := true, "\r" to the server
     /\ zs = "stopped" /\ zs' = "cleaned"
-    /\ UNCHANGED <<opts, hvars, dvars, svars, ovars, ivars, cvars, history, mvars>>
+    /\ UNCHANGED <<opts, hvars, dvars, logging, ovars, ivars, cvars, mvars>>
 
 -----------------------------------------------------------------------------
 (* Drag = uploadDragFiles goroutine                                                          *)
 DragAbort ==     \* `if !filter.dragging.Load() { return }`
     /\ drag = "pending" /\ ~dragging /\ drag' = "idle"
-    /\ UNCHANGED <<opts, hvars, zs, dragging, interrupting, skipCmd, svars, ovars, ivars, cvars, history, mvars>>
+    /\ UNCHANGED <<opts, hvars, zs, dragging, interrupting, skipCmd, logging, ovars, ivars, cvars, mvars>>
 
 DragInterrupt == \* interrupting := true; Ctrl-C to the server
     /\ drag = "pending" /\ dragging
     /\ drag' = "interrupting" /\ interrupting' = TRUE
-    /\ UNCHANGED <<opts, hvars, zs, dragging, skipCmd, svars, ovars, ivars, cvars, history, mvars>>
+    /\ UNCHANGED <<opts, hvars, zs, dragging, skipCmd, logging, ovars, ivars, cvars, mvars>>
 
 DragCommand ==   \* interrupting := false; skipUploadCommand := true; "trz\r" to the server
     /\ drag = "interrupting"
     /\ drag' = "command" /\ interrupting' = FALSE /\ skipCmd' = TRUE
-    /\ UNCHANGED <<opts, hvars, zs, dragging, svars, ovars, ivars, cvars, history, mvars>>
+    /\ UNCHANGED <<opts, hvars, zs, dragging, logging, ovars, ivars, cvars, mvars>>
 
 DragReset ==     \* 3 s later: resetDragFiles
     /\ drag = "command"
     /\ EchoAssumed => ~skipCmd
     /\ drag' = "idle" /\ dragging' = FALSE
-    /\ UNCHANGED <<opts, hvars, zs, interrupting, skipCmd, svars, ovars, ivars, cvars, history, mvars>>
+    /\ UNCHANGED <<opts, hvars, zs, interrupting, skipCmd, logging, ovars, ivars, cvars, mvars>>
 
-(* environment: the tty echo of the typed command *)
+(* environment: the tty echo of the typed command (not counted against the probe budget) *)
 EchoArrives ==
     /\ EchoAssumed /\ drag = "command" /\ skipCmd
     /\ childExit = NoExit /\ pcOut = "read"
-    /\ curOut' = [k |-> "cmdlike", id |-> 0] /\ pcOut' = "dispatch"     \* not counted against the budget
-    /\ UNCHANGED <<opts, hvars, zs, dvars, svars, nOut, lastOut, ivars, cvars, history, mvars>>
+    /\ curOut' = [k |-> "cmdlike", id |-> 0] /\ pcOut' = "scan"
+    /\ UNCHANGED <<opts, hvars, zs, dvars, logging, outOK, ivars, cvars, mvars>>
 
 -----------------------------------------------------------------------------
 (* Main = TrzszMain: `pty.Wait(); return pty.ExitCode()`                                     *)
 ChildExits(code) ==
     /\ childExit = NoExit /\ FullyIdle /\ pcIn = "read" /\ pcOut = "read"
     /\ childExit' = code
-    /\ UNCHANGED <<opts, hvars, zs, dvars, svars, ovars, ivars, cvars, history, wrapExit, lastWords>>
+    /\ UNCHANGED <<opts, hvars, zs, dvars, logging, ovars, ivars, cvars, wrapExit, lastWords>>
 
 WrapperReturns ==   \* everything the child said has been forwarded, its status is passed on
     /\ childExit # NoExit /\ wrapExit = NoExit /\ pcOut = "read"
     /\ wrapExit' = childExit
-    /\ UNCHANGED <<opts, hvars, zs, dvars, svars, ovars, ivars, cvars, history, childExit, lastWords>>
+    /\ UNCHANGED <<opts, hvars, zs, dvars, logging, ovars, ivars, cvars, childExit, lastWords>>
 
 -----------------------------------------------------------------------------
 (* budgets: MaxOut / MaxIn probes, MaxXfer triggers, MaxZ zmodem headers, MaxDrag drops *)
@@ -339,7 +316,7 @@ FeedInOK(k) ==
     /\ childExit = NoExit
     /\ IF k = "pathex" /\ opts.drag THEN nDrag < MaxDrag ELSE nIn < MaxIn
 
-Pumps == OutToTransfer \/ OutScan \/ OutForward \/ OutLoop \/ InSend \/ InLoop
+Pumps == OutToTransfer \/ OutForward \/ InSend
 Handler == HRefuse \/ HChooseFail \/ HCAS \/ (\E how \in Hows : HEnd(how)) \/ HExit \/ PromptEnd
 Sessions == ZStop \/ ZCleanup \/ DragAbort \/ DragInterrupt \/ DragCommand \/ DragReset \/ EchoArrives
 
@@ -362,16 +339,16 @@ TypeOK ==
     /\ prompt \in {"none", "open", "stop", "cont"}
     /\ zs \in {"none", "active", "stopped", "cleaned"}
     /\ drag \in {"idle", "pending", "interrupting", "command"}
-    /\ pcOut \in {"read", "dispatch", "forward", "done"} /\ pcIn \in {"read", "send", "done"}
+    /\ pcOut \in {"read", "scan"} /\ pcIn \in {"read", "send"}
     /\ zs # "none" => opts.zmodem
     /\ drag # "idle" => opts.drag
 
-(* While no session claims it, the chunk that comes out is the chunk fed: unmodified, once,   *)
-(* in order (a pump finishes chunk i before it takes chunk i+1: the entry belongs to curOut). *)
-PassThroughOut == lastOut.ok /\ (pcOut = "done" => lastOut.id = curOut.id)
+(* While no session claims it, the chunk that comes out is the chunk fed: unmodified, exactly *)
+(* once, in order (a pump finishes chunk i before it takes chunk i+1).                        *)
+PassThroughOut == outOK
 
 (* Same towards the server; with drag detection a list of existing paths may be taken.       *)
-PassThroughIn == lastIn.ok /\ (pcIn = "done" => lastIn.id = curIn.id)
+PassThroughIn == inOK
 
 PtrClearedOnEveryExit == hpc \in {"none", "spawned"} => transferPtr = NULL
 
@@ -381,8 +358,6 @@ PromptOnlyInTransfer == prompt # "none" => hpc # "none"
 
 ExitPassed == wrapExit # NoExit => wrapExit = childExit
 LastWordsDelivered == lastWords
-
-HistoryOK == history \in Hows \cup {"none"}
 
 (* under fairness of the pumps, the handler and the session timers the filter always comes back *)
 Live == []<>ModePass
